@@ -52,11 +52,29 @@ type c04In struct {
 	Produces string `json:"produces"` // json | text
 	RespBody Bs     `json:"resp_body"`
 	RespHdr  Bs     `json:"resp_hdr"`
+	Seq      []c04Step `json:"seq,omitempty"`        // kind seq: successive calls against ONE server whose templates overlap
+	ConsAlt  bool   `json:"consumes_alt,omitempty"` // the operation also lists application/json after its form media type
+	FileSkip int    `json:"file_skip,omitempty"`    // the upload is a seekable reader handed over after this many bytes were already read
 	Wire     string `json:"wire,omitempty"`     // "" = request serialised and re-parsed in process; "tcp" = a real loopback HTTP server and the default transport
 	RespPad  int    `json:"resp_pad,omitempty"` // the response body is followed by this many padding bytes (large bodies are streamed by a real transport)
 }
 
+// c04Step is one call of a history: operation 0 is GET <prefix>/{p1}, operation 1 is GET <prefix>/{p1}/{p2}.
+type c04Step struct {
+	Op int `json:"op"`
+	P1 Bs  `json:"p1"`
+	P2 Bs  `json:"p2"`
+}
+
+type c04StepObs struct {
+	Err    string `json:"err,omitempty"`
+	RanOp  int    `json:"ran_op"` // -1 = no handler ran
+	P1, P2 Bs
+	Code   int `json:"code"`
+}
+
 type c04Obs struct {
+	SeqObs []c04StepObs `json:"seq_obs,omitempty"`
 	Panicked  bool   `json:"panicked,omitempty"`
 	Panic     string `json:"panic,omitempty"`
 	SubmitErr string `json:"submit_err,omitempty"`
@@ -133,6 +151,19 @@ func c04PathVal(r *rand.Rand) Bs {
 }
 
 func (c04) Gen(r *rand.Rand, tier string, i int) any {
+	if i%10 == 9 {
+		in := c04In{BasePath: c04Bases[r.Intn(len(c04Bases))], Method: "GET", Template: []string{"/files", "/a/b", "/r"}[r.Intn(3)], Produces: "json"}
+		pool := []Bs{c04PathVal(r), c04PathVal(r), "a", "b", "a/b", "x"}
+		for j := 2 + r.Intn(4); j > 0; j-- {
+			st := c04Step{Op: r.Intn(2), P1: pool[r.Intn(len(pool))], P2: pool[r.Intn(len(pool))]}
+			if r.Intn(3) == 0 && len(in.Seq) > 0 { // the single value of this call spells the two values of the previous one
+				prev := in.Seq[len(in.Seq)-1]
+				st = c04Step{Op: 0, P1: prev.P1 + "/" + prev.P2}
+			}
+			in.Seq = append(in.Seq, st)
+		}
+		return in
+	}
 	in := c04In{
 		BasePath: c04Bases[r.Intn(len(c04Bases))],
 		Method:   []string{"POST", "PUT", "GET"}[r.Intn(3)],
@@ -170,6 +201,7 @@ func (c04) Gen(r *rand.Rand, tier string, i int) any {
 		}
 		in.FileName = string(b) + ".t"
 	}
+	in.ConsAlt = r.Intn(3) == 0
 	if r.Intn(4) == 0 {
 		in.Wire = "tcp"
 		in.RespPad = []int{0, 1500, 5000, 70000, 300000}[r.Intn(5)]
@@ -185,6 +217,9 @@ func (c04) Gen(r *rand.Rand, tier string, i int) any {
 		fb[j] = byte(r.Intn(256))
 	}
 	in.File = Bs(fb)
+	if r.Intn(3) == 0 && len(in.File) > 0 {
+		in.FileSkip = 1 + r.Intn(len(in.File)) // a seekable source handed over after a prefix was read
+	}
 	return in
 }
 
@@ -201,10 +236,16 @@ func c04Spec(in c04In) string {
 	switch in.Body {
 	case "form":
 		consumes = `["application/x-www-form-urlencoded"]`
+		if in.ConsAlt {
+			consumes = `["application/x-www-form-urlencoded","application/json"]`
+		}
 		params = append(params, `{"name":"f1","in":"formData","type":"string"}`,
 			`{"name":"fm","in":"formData","type":"array","items":{"type":"string"},"collectionFormat":"multi"}`)
 	case "multipart":
 		consumes = `["multipart/form-data"]`
+		if in.ConsAlt {
+			consumes = `["multipart/form-data","application/json"]`
+		}
 		params = append(params, `{"name":"f1","in":"formData","type":"string"}`, `{"name":"up","in":"formData","type":"file"}`)
 	case "json":
 		params = append(params, `{"name":"body","in":"body","schema":{"type":"object"}}`)
@@ -228,6 +269,23 @@ func c04Spec(in c04In) string {
 	return fmt.Sprintf(`{"swagger":"2.0","info":{"title":"t","version":"1"},%s%s"paths":{%s:{%q:{%s"consumes":%s,"produces":%s,"parameters":[%s],"responses":{"201":{"description":"ok","schema":{"type":"string"}}}}}}}`,
 		base, secdef, tpl, strings.ToLower(in.Method), sec, consumes, produces, strings.Join(params, ","))
 }
+
+func c04Consumes(in c04In) []string {
+	first := map[string]string{"none": "application/json", "json": "application/json", "form": "application/x-www-form-urlencoded", "multipart": "multipart/form-data"}[in.Body]
+	if in.ConsAlt && (in.Body == "form" || in.Body == "multipart") {
+		return []string{first, "application/json"}
+	}
+	return []string{first}
+}
+
+// c04Seekable is an upload source that can seek (as *os.File does), handed over at its current position.
+type c04Seekable struct {
+	*bytes.Reader
+	name string
+}
+
+func (c04Seekable) Close() error   { return nil }
+func (f c04Seekable) Name() string { return f.name }
 
 type c04Transport struct{ h http.Handler; target *Bs }
 
@@ -275,9 +333,75 @@ func c04Strs(v interface{}) []Bs {
 	return []Bs{Bs(fmt.Sprintf("?%T:%v", v, v))}
 }
 
+func c04RunSeq(in c04In, obs *c04Obs) {
+	bp := ""
+	if in.BasePath != "" {
+		b, _ := json.Marshal(in.BasePath)
+		bp = `"basePath":` + string(b) + `,`
+	}
+	t1, _ := json.Marshal(in.Template + "/{p1}")
+	t2, _ := json.Marshal(in.Template + "/{p1}/{p2}")
+	doc := fmt.Sprintf(`{"swagger":"2.0","info":{"title":"t","version":"1"},%s"produces":["application/json"],"paths":{%s:{"get":{"parameters":[{"name":"p1","in":"path","type":"string","required":true}],"responses":{"200":{"description":"ok","schema":{"type":"string"}}}}},%s:{"get":{"parameters":[{"name":"p1","in":"path","type":"string","required":true},{"name":"p2","in":"path","type":"string","required":true}],"responses":{"200":{"description":"ok","schema":{"type":"string"}}}}}}}`, bp, t1, t2)
+	spec, err := loads.Analyzed(json.RawMessage(doc), "")
+	if err != nil {
+		panic("spec: " + err.Error())
+	}
+	api := untyped.NewAPI(spec)
+	var cur *c04StepObs
+	mk := func(op int) runtime.OperationHandler {
+		return runtime.OperationHandlerFunc(func(data interface{}) (interface{}, error) {
+			m := data.(map[string]interface{})
+			cur.RanOp = op
+			if v, ok := m["p1"].(string); ok {
+				cur.P1 = Bs(v)
+			}
+			if v, ok := m["p2"].(string); ok {
+				cur.P2 = Bs(v)
+			}
+			return "ok", nil
+		})
+	}
+	api.RegisterOperation("get", in.Template+"/{p1}", mk(0))
+	api.RegisterOperation("get", in.Template+"/{p1}/{p2}", mk(1))
+	h := middleware.Serve(spec, api) // ONE server for the whole history
+	var tgt Bs
+	for _, st := range in.Seq {
+		so := c04StepObs{RanOp: -1}
+		cur = &so
+		rt := client.New("example.test", in.BasePath, []string{"http"})
+		rt.Transport = c04Transport{h, &tgt}
+		pattern := in.Template + "/{p1}"
+		if st.Op == 1 {
+			pattern = in.Template + "/{p1}/{p2}"
+		}
+		st := st
+		_, err := rt.Submit(&runtime.ClientOperation{ID: "op", Method: "GET", PathPattern: pattern, Schemes: []string{"http"},
+			ProducesMediaTypes: []string{"application/json"}, ConsumesMediaTypes: []string{"application/json"},
+			Params: runtime.ClientRequestWriterFunc(func(req runtime.ClientRequest, _ strfmt.Registry) error {
+				_ = req.SetPathParam("p1", string(st.P1))
+				if st.Op == 1 {
+					_ = req.SetPathParam("p2", string(st.P2))
+				}
+				return nil
+			}),
+			Reader: runtime.ClientResponseReaderFunc(func(resp runtime.ClientResponse, _ runtime.Consumer) (interface{}, error) {
+				so.Code = resp.Code()
+				return nil, nil
+			})})
+		if err != nil {
+			so.Err = err.Error()
+		}
+		obs.SeqObs = append(obs.SeqObs, so)
+	}
+}
+
 func (c04) Run(inAny any) any {
 	in := inAny.(c04In)
 	var obs c04Obs
+	if len(in.Seq) > 0 {
+		obs.Panicked, obs.Panic = recoverTo(func() { c04RunSeq(in, &obs) })
+		return obs
+	}
 	obs.Panicked, obs.Panic = recoverTo(func() {
 		spec, err := loads.Analyzed(json.RawMessage(c04Spec(in)), "")
 		if err != nil {
@@ -348,12 +472,10 @@ func (c04) Run(inAny any) any {
 			rt.Transport = c04Transport{h, &obs.Target}
 		}
 		rt.Consumers["text/plain"] = runtime.TextConsumer()
-		rt.Producers["multipart/form-data"] = runtime.DiscardProducer
-		rt.Producers["application/x-www-form-urlencoded"] = runtime.DiscardProducer
 		op := &runtime.ClientOperation{
 			ID: "op", Method: in.Method, PathPattern: in.Template, Schemes: []string{"http"},
 			ProducesMediaTypes: []string{map[string]string{"json": "application/json", "text": "text/plain"}[in.Produces]},
-			ConsumesMediaTypes: []string{map[string]string{"none": "application/json", "json": "application/json", "form": "application/x-www-form-urlencoded", "multipart": "multipart/form-data"}[in.Body]},
+			ConsumesMediaTypes: c04Consumes(in),
 			Params: runtime.ClientRequestWriterFunc(func(req runtime.ClientRequest, _ strfmt.Registry) error {
 				_ = req.SetPathParam("p1", string(in.P1))
 				if strings.Contains(in.Template, "{p2}") {
@@ -379,7 +501,13 @@ func (c04) Run(inAny any) any {
 					}
 				case "multipart":
 					_ = req.SetFormParam("f1", string(in.F1))
-					_ = req.SetFileParam("up", runtime.NamedReader(in.FileName, bytes.NewReader([]byte(in.File))))
+					if in.FileSkip > 0 {
+						rd := bytes.NewReader([]byte(in.File))
+						_, _ = rd.Seek(int64(in.FileSkip), io.SeekStart) // the caller has already consumed a prefix
+						_ = req.SetFileParam("up", c04Seekable{rd, in.FileName})
+					} else {
+						_ = req.SetFileParam("up", runtime.NamedReader(in.FileName, bytes.NewReader([]byte(in.File))))
+					}
 				case "json":
 					_ = req.SetBodyParam(map[string]string{"v": string(in.JSON)})
 				}
@@ -457,7 +585,11 @@ func c04Supplied(in c04In) map[string][]Bs {
 		if in.F1 != "" {
 			m["f1"] = []Bs{in.F1}
 		}
-		m["up"] = []Bs{in.File}
+		skip := in.FileSkip
+		if skip > len(in.File) {
+			skip = len(in.File)
+		}
+		m["up"] = []Bs{in.File[skip:]}
 		name := in.FileName
 		if i := strings.LastIndexAny(name, "/"); i >= 0 {
 			name = name[i+1:]
@@ -480,6 +612,30 @@ func c04Assoc(m map[string][]Bs) string {
 
 func (c04) Coq(inAny any, obsAny any) string {
 	in, obs := inAny.(c04In), obsAny.(c04Obs)
+	if len(in.Seq) > 0 {
+		steps := make([]string, 0, len(in.Seq))
+		for i, st := range in.Seq {
+			var so c04StepObs
+			if i < len(obs.SeqObs) {
+				so = obs.SeqObs[i]
+			} else {
+				so.RanOp = -1
+			}
+			sup := map[string][]Bs{"p1": {st.P1}}
+			rec := map[string][]Bs{}
+			if so.RanOp >= 0 {
+				rec["p1"] = []Bs{so.P1}
+			}
+			if st.Op == 1 {
+				sup["p2"] = []Bs{st.P2}
+			}
+			if so.RanOp == 1 {
+				rec["p2"] = []Bs{so.P2}
+			}
+			steps = append(steps, fmt.Sprintf("(%s, %s, %s, %s)", coqBool(so.Err != ""), coqBool(so.RanOp == st.Op), c04Assoc(sup), c04Assoc(rec)))
+		}
+		return fmt.Sprintf("CRoundSeq %s [%s]", coqBool(obs.Panicked), strings.Join(steps, "; "))
+	}
 	return fmt.Sprintf("CRound %s %s %s %s %s %s %s %s %s %s",
 		coqBool(obs.Panicked), coqBool(obs.SubmitErr != ""), coqBool(obs.Ran),
 		c04Assoc(c04Supplied(in)), c04Assoc(obs.Recv),
@@ -493,6 +649,9 @@ func (c04) Classify(inAny any, obsAny any) []string { return nil }
 
 func (c04) Category(inAny any, obsAny any) (string, bool) {
 	in := inAny.(c04In)
+	if len(in.Seq) > 0 {
+		return fmt.Sprintf("history/%d-calls-one-server", len(in.Seq)), true
+	}
 	plain := func(s Bs) bool {
 		for i := 0; i < len(s); i++ {
 			c := s[i]
